@@ -1259,7 +1259,7 @@ impl World for GraphWorld {
             if round.is_some() {
                 self.explain = format!("log: {log:?}");
                 if std::env::var("HX_DEBUG_MODEL").is_ok() {
-                    self.explain.push_str(&format!("\n{}\nround: {:?}", self.model.dump(), round));
+                    self.explain.push_str(&format!("\n{}\nround: {:?}\n{}", self.model.dump(), round, canonicalise_dump(&self.state.verif_dump())));
                 }
             }
         }
